@@ -80,6 +80,24 @@ class Prop:
                 shape = [rng.choice([1, 2, 3]) for _ in range(N)]
                 tj = rand_tensor_json(rng, shape, maxr=3, maxs=3, zero=(rng.random() < 0.05))
                 self._add_op(add, rng, tj, rng.choice(OPS), dd=rng.choice(["float64", "float64", "float32"]))
+        # graded spectra at small / large overall magnitude: the default tolerance is relative, so every component
+        # far above 1e-14 relative must survive rounding whatever the scale of the data (compared relatively)
+        ROUND_OPS = ["round_tt", "round_tucker", "round", "tn_round_tt", "tn_round_tucker", "tn_round"]
+        for scale in (1.0, 1e-6, 1e-10, 1e-12, 1e8):
+            for rep in range(2 if quick else 8):
+                N = rng.choice([2, 3])
+                shape = [rng.choice([4, 5, 6]) for _ in range(N)]
+                kinds = [("cp", rng.random() < 0.3) for _ in range(N)]
+                while True:
+                    tj = rand_tensor_json(rng, shape, kinds, maxr=3, lo=-3, hi=3, maxs=4)
+                    R = np.array(tj["modes"][0]["core"]).shape[1]
+                    if R == 3 and np.linalg.matrix_rank(dense_np(tj).reshape(shape[0], -1)) == 3:
+                        break
+                w = np.array([1.0, 1e-2, 1e-4]) * scale
+                tj["modes"][0]["core"] = (np.array(tj["modes"][0]["core"], dtype=float) * w[None, :]).tolist()
+                for op in ROUND_OPS:
+                    add(tj, op, rel=True)
+                    cases[-1]["tags"].update(data="graded", scale="%g" % scale)
         return cases
 
     def _add_op(self, add, rng, tj, op, dd="float64"):
@@ -163,6 +181,9 @@ class Prop:
             return False, "dtype %s for float64 data" % res["dtype"]
         a = np.array(res["dense"]); b = np.array(exp["dense"])
         tol = 0.0 if (case["op"] in EXACT or case["op"] == "roundtrip") else 1e-10
+        if case.get("rel"):          # relative to the magnitude of the data, whatever it is
+            m = float(np.max(np.abs(b))) if b.size else 1.0
+            a = a / m; b = b / m
         if not close(a, b, tol):
             return False, "values differ (max abs difference %s)" % (np.max(np.abs(a - b)) if a.size else 0)
         if case["op"] == "tt" and not res["pure_tt"]:
